@@ -474,6 +474,22 @@ def bad_items(item_kind):
 # Materialisation
 
 
+class Helper:
+    """Harness object whose bound methods are used as attribute values (C10)."""
+
+    def __init__(self, tag):
+        self.tag = tag
+
+    def m1(self):
+        return 1
+
+    def m2(self):
+        return 2
+
+    def __repr__(self):
+        return f"Helper({self.tag})"
+
+
 class Built:
     """The real classes for one world, plus harness-side metadata about them."""
 
@@ -569,6 +585,12 @@ def build_value(v, classes, faults=None):
         return getattr(spec_classes, payload)
     if tag == "mod":
         return {"os": os, "sys": sys, "math": math}[payload]
+    if tag == "func":
+        return FUNCS[payload]
+    if tag == "cls":
+        return {"int": int, "str": str, "leaf": classes["leaf"], "kitem": classes["kitem"]}[payload]
+    if tag == "bmeth":
+        return getattr(classes["__" + payload[0] + "__"], payload[1])
     raise HarnessError(f"bad valref {v!r}")
 
 
@@ -669,6 +691,8 @@ def materialise(spec, faults, name_suffix=""):
 
     B = Built()
     classes = B.classes
+    classes["__h1__"] = Helper("h1")
+    classes["__h2__"] = Helper("h2")
 
     # Leaf --------------------------------------------------------------
     lns = {"__annotations__": {"p": int, "q": str, "notes": List[str]}, "p": 1, "notes": []}
